@@ -134,11 +134,10 @@ Qed.
 Print Assumptions C20_monitor_faithful.
 
 (** Lock discipline, on the access table regenerated from the Go sources on every run.
-    [C20_known_races]: the conflicting pairs that are allowed to be unprotected — the recorded
-    finding (EndTime reads ResetTime without the mutex while Inc writes it under the mutex). With the
-    proposed fix applied the table has no such pair and this list is to be emptied. *)
-Definition C20_known_races : list kpair :=
-  [("ResetTime", ("IPRequestLimiter.EndTime", "R:handler:[]"), ("IPRequestLimiter.Inc", "W:handler:[L:mux]"))].
+    [C20_known_races]: the conflicting pairs that are allowed to be unprotected. It is empty since
+    the fix commit 8410973 (EndTime takes the mutex); before it the table contained the pair
+    ("ResetTime", EndTime R:handler:[], Inc W:handler:[L:mux]), see C20_unlocked_endtime_refuted. *)
+Definition C20_known_races : list kpair := [].
 
 Theorem C20_table_present :
   existsb (String.eqb "IPRequestLimiter") Access.missing = false /\
@@ -179,7 +178,21 @@ Proof. exact races_known_nil_race_free.
 Qed.
 Print Assumptions C20_lockset_sound.
 
-(** The finding is a real race, not an artefact of the decision procedure: a write under the
+(** Hence, for the table of the checked tree: in every schedule of any number of goroutines that
+    obeys the table, every two conflicting accesses to a field of IPRequestLimiter by different
+    goroutines are ordered by happens-before (no data race; reading the counter while requests are
+    in flight is race-free). *)
+Theorem C20_race_free :
+  forall tr, valid multi_all Access.IPRequestLimiter tr ->
+  forall pre mid post t1 a1 t2 a2,
+    tr = pre ++ EAcc t1 a1 :: mid ++ EAcc t2 a2 :: post ->
+    t1 <> t2 -> a_field a1 = a_field a2 -> a_write a1 || a_write a2 = true ->
+    hb tr (length pre) (length pre + 1 + length mid).
+Proof. exact (races_known_nil_race_free Access.IPRequestLimiter C20_lockset).
+Qed.
+Print Assumptions C20_race_free.
+
+(** The defect repaired by 8410973 was a real race, not an artefact of the decision procedure: a write under the
     mutex and a read that takes no lock, in two handler goroutines, have a valid schedule in which
     they are not ordered by happens-before. *)
 Theorem C20_unlocked_endtime_refuted :
